@@ -1535,6 +1535,11 @@ func (in *Inst) goEvent(x *ssa.Go, st *State) {
 // `assert before <name>: ..` clauses of the function under contract (also inside an inlined closure). A clause naming
 // an argument the statement does not have fails as that obligation.
 func (in *Inst) pseudoEvent(name string, x ssa.Instruction, args []ssa.Value, st *State) {
+	in.pseudoEventOrd(name, -1, x, args, st)
+}
+
+// pseudoEventOrd: ord >= 0 numbers the statement among its kind in source order (`assert before return#0: ..`).
+func (in *Inst) pseudoEventOrd(name string, ord int, x ssa.Instruction, args []ssa.Value, st *State) {
 	if st.reach == "false" {
 		return
 	}
@@ -1547,7 +1552,7 @@ func (in *Inst) pseudoEvent(name string, x ssa.Instruction, args []ssa.Value, st
 	}
 	for _, con := range cons {
 		for i, ca := range con.Asserts {
-			if ca.Callee != name || ca.After || in.e.W.otherProp(ca.Clause.Prop) {
+			if ca.Callee != name || ca.After || in.e.W.otherProp(ca.Clause.Prop) || (ca.Ordinal >= 0 && ca.Ordinal != ord) {
 				continue
 			}
 			env := in.newEnv(st)
@@ -1569,6 +1574,10 @@ func (in *Inst) pseudoEvent(name string, x ssa.Instruction, args []ssa.Value, st
 						if u, ok := r.(unsupported); ok && strings.Contains(u.msg, "unknown name") {
 							in.e.note("clause `" + exprString(ca.Clause.Expr) + "` cannot be evaluated at a " + name + " statement: " + u.msg)
 							t = "false"
+							if name == "return" && ca.Ordinal < 0 {
+								// an un-numbered return clause applies to the returns at which its names are in scope
+								t = "true"
+							}
 							return
 						}
 						panic(r)
